@@ -1,7 +1,7 @@
 (** Properties/C15.v — "Typed objects round-trip through their dictionary form without losing entries".
     Only statements, each closed by [exact] of a lemma proved elsewhere. *)
 From PdfV Require Import Base.Prelude Gen.Generated Typed.Prim Typed.Schema Typed.Derive Typed.Hand
-  Typed.DictProofs Typed.DeriveProofs Typed.HandProofs Typed.ReadProofs Typed.TopProofs.
+  Typed.DictProofs Typed.DeriveProofs Typed.HandProofs Typed.ReadProofs Typed.TopProofs Typed.EncodingProofs.
 
 (** The first sentence of the property, for every type of the universe (containers, derived structs, name and integer
     enums, hand-written pairs as a parameter), every schema set, both option sets, every object table: a value that
@@ -152,6 +152,35 @@ Print Assumptions C15_top_rt_maybe_ref.
 Theorem C15_generated_top_wf : forallb (fun s => negb (rw s) || schema_wf_top s) (structs gen_schemas) = true.
 Proof. exact top_generated_wf. Qed.
 Print Assumptions C15_generated_top_wf.
+
+(** NameTree<Primitive> (after fix C15-c): every node the writer accepts — leaf or intermediate, with or without /Limits —
+    reads back to the identical value, whatever the resolver *)
+Theorem C15_hand_NameTree : forall rs v p, write_nametree v = TOk p -> read_nametree rs p = TOk v.
+Proof. exact nametree_rt. Qed.
+Print Assumptions C15_hand_NameTree.
+
+(** Encoding (encoding.rs; ISO 32000-1 9.6.6.1, Table 114): for every base encoding whose name reads back to it (every
+    variant of the generated enum and any foreign name: [base_variants_ok], [base_other_ok]) and EVERY differences map —
+    codes strictly increasing (the sorted HashMap<u32, _>), each below 2^32, so in particular every map over 0..255 —
+    the value is written, reads back to the identical value whatever the resolver, and the written /Differences array
+    is the run-length form of the standard: the groups [group m] written as "code, then the names of consecutive
+    codes" ([run_form]); the groups denote exactly the map ([expand]), none is empty and no two neighbours could be
+    joined ([maximal]).  An empty map is written as the bare base-encoding name. *)
+Theorem C15_hand_Encoding : forall rs b m, base_ok b -> codes_ok 0 m = true ->
+  exists p, write_encoding (enc_value b m) = TOk p
+    /\ read_encoding rs p = TOk (enc_value b m)
+    /\ (m <> [] -> exists bp, write_base_encoding b = TOk bp /\
+                    p = PDict [(k_BaseEncoding, bp); (k_Differences, PArr (run_form (group m)))])
+    /\ (m = [] -> write_base_encoding b = TOk p)
+    /\ expand (group m) = m /\ maximal (group m).
+Proof. exact encoding_rt. Qed.
+Print Assumptions C15_hand_Encoding.
+
+Example C15_hand_Encoding_from_one :
+  write_diffs [(1, [100]); (2, [99]); (5, [114])] None = [PInt 1; PName [100]; PName [99]; PInt 5; PName [114]]
+  /\ read_diffs [PInt 1; PName [100]; PName [99]; PInt 5; PName [114]] 0 [] = TOk [(1, [100]); (2, [99]); (5, [114])]
+  /\ group [(1, [100]); (2, [99]); (5, [114])] = [(1, [[100]; [99]]); (5, [[114]])].
+Proof. exact encoding_from_one. Qed.
 
 (** non-vacuity: a concrete Page-like value of a generated schema satisfies the premises and goes round *)
 Example C15_nonvacuous_date :
